@@ -144,7 +144,9 @@ class Evaluator:
             if isinstance(l, bool) or isinstance(r, bool) or not (isinstance(l, int) and isinstance(r, int)):
                 if not (isinstance(l, (int, bool)) and isinstance(r, (int, bool))):
                     raise Unsupported("binary operator on non-integers")
-            ops = {ast.Add: operator.add, ast.Sub: operator.sub, ast.Mult: operator.mul, ast.BitXor: operator.xor, ast.BitAnd: operator.and_, ast.BitOr: operator.or_}
+            ops = {ast.Add: operator.add, ast.Sub: operator.sub, ast.Mult: operator.mul, ast.BitXor: operator.xor, ast.BitAnd: operator.and_, ast.BitOr: operator.or_, ast.LShift: operator.lshift, ast.RShift: operator.rshift, ast.Pow: operator.pow, ast.FloorDiv: operator.floordiv, ast.Mod: operator.mod}
+            if isinstance(e.op, (ast.Pow, ast.LShift)) and (not isinstance(r, int) or r < 0 or r > 4096):
+                raise Unsupported("exponent out of range")
             if type(e.op) in ops:
                 return ops[type(e.op)](l, r)
             raise Unsupported(f"binary {type(e.op).__name__}")
